@@ -5,6 +5,8 @@ import json
 import common
 import vrun
 from common import cerberus
+import copy
+import pool
 from gen import Gen, REGEXES
 
 LEVEL = "proof"
@@ -41,7 +43,7 @@ def api_calls(schema, cfg, doc, update):
     out = []
     for api in ("validate", "validate_nonorm", "validated", "normalized", "errors"):
         try:
-            v = cerberus.Validator(schema, **cfg)
+            v = pool.PoolValidator(copy.deepcopy(schema), **copy.deepcopy(cfg))
         except cerberus.SchemaError:
             return [("construct", "rejected")]
         except Exception as e:
@@ -102,8 +104,9 @@ def run(ctx):
                     distinct.add(json.dumps(vrun.case_json(c), sort_keys=True))
     matrix = len(distinct)
     # (2) generated cases with the wrong-shape stream forced
-    for kw in ({"p_mismatch": 0.35}, {"p_mismatch": 0.12}):
-        cases = vrun.gen_cases(ctx["seed"] + len(kw), n // 2, **kw)
+    for kw in ({"p_mismatch": 0.35}, {"p_mismatch": 0.12}, {"normalization": True, "p_mismatch": 0.2},
+               {"normalization": True, "nested_bias": True, "max_depth": 4}):
+        cases = vrun.gen_cases(ctx["seed"] + len(kw), n // 4, **kw)
         for c in cases:
             if check_case(c, violations, dist):
                 distinct.add(json.dumps(vrun.case_json(c), sort_keys=True))
@@ -142,7 +145,8 @@ def run(ctx):
     return {"violations": out, "cases": len(distinct) + len(cases), "nontrivial": len(distinct), "model_cases": dis,
             "disagreements_checked": dis, "samples": samples, "distribution": dict(dist), "exhaustive": False,
             "rule": "rule x value-shape matrix (%d cells x 3 configurations, exhaustive for the pools) + generated schemas with 35%% / 12%% "
-                    "wrong-shape constraints, each run through validate, validate(normalize=False), validated, normalized and the errors "
+                    "wrong-shape constraints, half of them with normalization rules using the callable pool (coercers, rename handlers and default setters "
+                    "that raise ValueError / KeyError / NotImplementedError / AttributeError), each run through validate, validate(normalize=False), validated, normalized and the errors "
                     "property; any exception other than the documented ones is a violation keyed by (type, innermost cerberus function). "
                     "Non-trivial = distinct accepted (schema, config, document) cases." % (len(RULE_CONSTRAINTS) * len(SHAPES))}
 
